@@ -174,9 +174,9 @@ inline std::string auth_text(const GenAuth &a) {
 enum SegFlavor { SEG_ANY = 0, SEG_NOPCTDOT = 1 /* no percent-encoded dot segments (C09) */ };
 inline std::string g_segment(Tape &t, int flavor = SEG_ANY) {
   static const std::vector<std::string> vocab = {"a", "", ".", "..", "b", "c", "a:b", "%2e", "%2E%2e", "%41", "%7e",
-                                                 "%3a", ";p", "@", "x.y", "..a", ".%2E", "d:", "%2F", ":", "1:2", "%7E:x", "_k:v", ".a", "..."};
+                                                 "%3a", ";p", "@", "x.y", "..a", ".%2E", "d:", "%2F", ":", "1:2", "%7E:x", "_k:v", ".a", "...", "a.", "~."};
   static const std::vector<std::string> vocab_nopctdot = {"a", "", ".", "..", "b", "c", "a:b", "%41", "%7e", "%3a",
-                                                          ";p", "@", "x.y", "..a", "d:", "%2F", "e", ":", "1:2", "_k:v", ".a", "..."};
+                                                          ";p", "@", "x.y", "..a", "d:", "%2F", "e", ":", "1:2", "_k:v", ".a", "...", "a.", "~."};
   if (g_scale() > 1 && t.chance(1, 8)) {
     static const int totals[] = {255, 256, 257, 258, 259, 512, 513, 514};
     std::string pre = t.coin() ? "." : "..";
@@ -287,7 +287,8 @@ inline u32s to32(const std::string &s) { u32s o; for (unsigned char c : s) o += 
 inline u32s g_noise(Tape &t, bool wideExtras, int *arm = nullptr) {
   static const std::vector<std::string> tokens = {"//", "[", "]", "::", "%4", "%4G", "1.2.3.4", "255", "256", "v1.", "@", ":80", ":",
                                                   "/", "?", "#", "a", "http:", "[::1]", "[v1.a]", "%41", "..", ".", "1:", ":1", "[1::",
-                                                  "::]", "1.2.3.", "%", "x:y@", "01", "ffff:", "[ffff"};
+                                                  "::]", "1.2.3.", "%", "x:y@", "01", "ffff:", "[ffff",
+                                                  "u:%zz@h", "u:12%4g@h", "//u:%@h", "%zz", "%4g", ":%G", "u:1%41@h"};
   int a = t.weighted({40, 35, 15, 10});
   if (arm) *arm = a;
   u32s s;
